@@ -34,6 +34,9 @@ class C01Monitor(Monitor):
         self.seed_seen = set()
 
     def _box(self, stack_id):
+        if stack_id >= len(self.w.stacks):  # minimize() called fun before it built the tree
+            b = np.asarray(self.w.plan["box"], dtype=float)
+            return b[:, 0], b[:, 1]
         b = self.w.stacks[stack_id]["fnp"]._bounds
         b = np.asarray(b, dtype=float)
         return b[:, 0], b[:, 1]
